@@ -1,0 +1,13 @@
+//go:build verif
+
+package cdc
+
+// SetSink replaces the sink events are delivered to. It must be called before
+// Start. Only present in "verif" builds (a simulation harness records
+// deliveries and injects endpoint failures without a socket).
+func (s *Service) SetSink(sink Sink) {
+	if s.sink != nil {
+		s.sink.Close()
+	}
+	s.sink = sink
+}
